@@ -27,10 +27,24 @@ func init() {
 			if callee := c.P.FuncOf(call.Fn); callee != nil && len(callee.CallsTo(false, ph.Obj)) > 0 {
 				ob := c.Ob(callee, "apply-puts-entry", callee.Body.Pos())
 				puts := false
-				put := c.P.Method("chain", "dbBucket", "put")
+				rawPut := c.P.Method("chain", "DBBucket", "Put")
 				for _, c2 := range callee.Calls(false) {
-					if f2 := c.P.FuncOf(c2.Fn); f2 != nil && bw[c2.Fn] && len(f2.CallsTo(false, put)) > 0 {
-						puts = true
+					f2 := c.P.FuncOf(c2.Fn)
+					if f2 == nil || !bw[c2.Fn] {
+						continue
+					}
+					// the best-index writer reaches DBBucket.Put through the wrapper (two hops at most)
+					for _, c3 := range f2.Calls(false) {
+						if w := c.P.FuncOf(c3.Fn); w != nil {
+							if len(w.CallsTo(false, rawPut)) > 0 {
+								puts = true
+							}
+							for _, c4 := range w.Calls(false) {
+								if w2 := c.P.FuncOf(c4.Fn); w2 != nil && len(w2.CallsTo(false, rawPut)) > 0 {
+									puts = true
+								}
+							}
+						}
 					}
 				}
 				ob.Check(puts, nil, "applying a block does not put its best-index entry")
